@@ -10,6 +10,10 @@ from . import wcommon as W
 
 def body(rng: random.Random, nbytes: int, sealed: bool, extent: int | None) -> dict:
     items = [["f", ["u", 8, "s"], "f%d" % i] for i in range(nbytes)]
+    if rng.random() < 0.3:
+        # the rules speak of subjects and services; whether a message is a structure or a union is irrelevant to them
+        items = [["f", ["arr", ["u", 8, "s"], max(1, nbytes - 1)], "bulk"], ["f", ["u", 8, "s"], "small"]] + ([["f", ["bool"], "flag"]] if rng.random() < 0.5 else [])
+        return {"union": True, "hdr": None, "items": items, "seal": "sealed" if sealed else extent}
     return {"union": False, "hdr": None, "items": items, "seal": "sealed" if sealed else extent}
 
 
